@@ -284,7 +284,8 @@ def correspondence(ctx):
     collection_stream(ctx, ctx.budget(60, 600))
     import colllib
     colllib.run(ctx, ctx.budget(200, 2500), prefix="C16",
-                only={"polygon3.area-then-contains", "polygon3.contains", "segment.contains", "segment3.contains", "triangle.contains"})
+                only={"polygon3.area-then-contains", "polygon3.contains", "segment.contains", "segment3.contains", "triangle.contains"},
+                patterns=["k", "1", "k1", "1k", "mixed"])      # collections with different numbers of axes: C04 (KF-C04-1)
     # membership does not depend on the representatives of the vertices / of the point (vertex-wise factors of both signs)
     from props import c03
     c03.directed(ctx, prefix="C16")
